@@ -482,6 +482,7 @@ void checkPosteriorRow(vf::Ctx& c, const vector<double>& row, const vector<LD>& 
 bool derivClose(double got, LD ref) { return finite(got) && fabsl(got - ref) <= DER_REL * fabsl(ref) + DER_ABS; }
 double derivRatio(double got, LD ref) { return static_cast<double>(fabsl(got - ref) / (DER_REL * fabsl(ref) + DER_ABS)); }
 
+inline bool sameVec(const vector<double>& a, const vector<double>& b) { if (a.size() != b.size()) return false; for (size_t i = 0; i < a.size(); ++i) if (!(vf::sameBits(a[i], b[i]) || (a[i] != a[i] && b[i] != b[i]))) return false; return true; }
 template <class F> bool throwsNotImplemented(F f) { try { f(); } catch (NotImplementedException&) { return true; } return false; }
 
 }  // namespace
@@ -603,18 +604,18 @@ LAW(L2_posteriors, RC, 4000, 150000, 480, ">=1 break point, or a zero transition
     ob.lik->getHiddenStatesPosteriorProbabilities(app, true);
     CHECK(app.size() == junk + L, who << ": append=true gave " << app.size() << " rows, expected " << junk << " old + " << L);
     for (size_t q = 0; q < junk; ++q) CHECK(app[q].size() == 2 && app[q][0] == -3.0 && app[q][1] == -3.0, who << ": append=true modified an existing row");
-    for (size_t t = 0; t < L; ++t) CHECK(app[junk + t] == all[t], who << ": appended row of site " << t << " differs from the append=false answer");
+    for (size_t t = 0; t < L; ++t) CHECK(sameVec(app[junk + t], all[t]), who << ": appended row of site " << t << " differs from the append=false answer");
     Vdouble each = ob.lik->getLikelihoodForEachSite();
     CHECK(each.size() == L, who << ": getLikelihoodForEachSite returned " << each.size() << " values for " << L << " sites");
     size_t step = L <= 12 ? 1 : 1 + L / 12;
     for (size_t t = c.below(step); t < L; t += step) {
       Vdouble one = ob.lik->getHiddenStatesPosteriorProbabilitiesForASite(t);
-      CHECK(one == all[t], who << ": getHiddenStatesPosteriorProbabilitiesForASite(" << t << ") differs from row " << t << " of the all-sites answer");
+      CHECK(sameVec(one, all[t]), who << ": getHiddenStatesPosteriorProbabilitiesForASite(" << t << ") differs from row " << t << " of the all-sites answer");
       LD want = 0, emax = 0; for (size_t k = 0; k < n; ++k) { want += lg.post[t][k] * r.e[t][k]; emax = max(emax, r.e[t][k]); }
       double got = ob.lik->getLikelihoodForASite(t);
       c.observe("site_lik/1e-8", static_cast<double>(fabsl(got - want) / (POST_REF * emax)));
       CHECK(fabsl(got - want) <= POST_REF * emax, who << ": getLikelihoodForASite(" << t << ") = " << vf::dec(got) << " but sum_s posterior(t,s) e(t,s) = " << vf::dec(static_cast<double>(want)));
-      CHECK(each[t] == got, who << ": getLikelihoodForEachSite()[" << t << "] = " << vf::dec(each[t]) << " differs from getLikelihoodForASite = " << vf::dec(got));
+      CHECK(vf::sameBits(each[t], got), who << ": getLikelihoodForEachSite()[" << t << "] = " << vf::dec(each[t]) << " differs from getLikelihoodForASite = " << vf::dec(got));
     }
   }
   {  // the low-memory variant documents that it cannot answer these queries
@@ -646,7 +647,10 @@ namespace {
 // LogsumHmmLikelihood: `num -= num[whichMax(num)]` binds the subtrahend by reference to an element of num
 bool logsumAliasClass(const LogFB& lg, int n) {
   for (auto& row : lg.lf) {
-    size_t pos = 0; for (size_t k = 1; k < row.size(); ++k) if (row[k] > row[pos]) pos = k;
+    LD mx = NEG_INF; for (LD x : row) mx = max(mx, x);
+    if (mx == NEG_INF) continue;
+    // the library takes the FIRST maximal element of its own double values: every index within rounding of the maximum is a candidate
+    size_t pos = 0; while (!(row[pos] >= mx - 1e-9L * (1 + fabsl(mx)))) ++pos;
     if (pos + 1 < static_cast<size_t>(n)) for (size_t k = pos + 1; k < row.size(); ++k) if (row[k] != NEG_INF) return true;
   }
   return false;
@@ -797,17 +801,17 @@ LAW(L5_history, RC, 8000, 300000, 520, "a changed parameter value or new break p
       size_t off = append ? 2 : 0;
       CHECK(p1.size() == off + L, who << ": posteriors: " << p1.size() << " rows, expected " << off + L);
       for (size_t t = 0; t < L; ++t) {
-        CHECK(p1[off + t] == p2[t], who << ": posteriors of site " << t << " differ from those of a fresh object (first entry " << vf::dec(p1[off + t][0]) << " against " << vf::dec(p2[t][0]) << ")");
+        CHECK(sameVec(p1[off + t], p2[t]), who << ": posteriors of site " << t << " differ from those of a fresh object (first entry " << vf::dec(p1[off + t][0]) << " against " << vf::dec(p2[t][0]) << ")");
         if (refOk) checkPosteriorRow(c, p1[off + t], lg.post[t], who, t);
       }
       Vdouble e1 = ob.lik->getLikelihoodForEachSite(), e2 = fresh.lik->getLikelihoodForEachSite();
-      CHECK(e1 == e2, who << ": getLikelihoodForEachSite() differs from the answer of a fresh object");
+      CHECK(sameVec(e1, e2), who << ": getLikelihoodForEachSite() differs from the answer of a fresh object");
     } else {
       Vdouble p1 = ob.lik->getHiddenStatesPosteriorProbabilitiesForASite(site), p2 = fresh.lik->getHiddenStatesPosteriorProbabilitiesForASite(site);
-      CHECK(p1 == p2, who << ": posteriors of site " << site << " differ from those of a fresh object (first entry " << vf::dec(p1[0]) << " against " << vf::dec(p2[0]) << ")");
+      CHECK(sameVec(p1, p2), who << ": posteriors of site " << site << " differ from those of a fresh object (first entry " << vf::dec(p1[0]) << " against " << vf::dec(p2[0]) << ")");
       if (refOk) checkPosteriorRow(c, p1, lg.post[site], who, site);
       double l1 = ob.lik->getLikelihoodForASite(site), l2 = fresh.lik->getLikelihoodForASite(site);
-      CHECK(vf::sameBits(l1, l2), who << ": getLikelihoodForASite(" << site << ") = " << vf::dec(l1) << ", fresh object " << vf::dec(l2));
+      CHECK(vf::sameBits(l1, l2) || (l1 != l1 && l2 != l2), who << ": getLikelihoodForASite(" << site << ") = " << vf::dec(l1) << ", fresh object " << vf::dec(l2));
     }
   };
   // returns false when the query falls into the input class of a known finding (then it is not executed)
